@@ -2,6 +2,8 @@
 package all
 
 import (
+	_ "verif/sim/world/ackw"
 	_ "verif/sim/world/broker"
 	_ "verif/sim/world/ring"
+	_ "verif/sim/world/topicw"
 )
